@@ -19,6 +19,7 @@ EXPLANATION = (
     "(p*len)/100 evaluated product-first (floor makes the floating-point rounding order observable). A cast applied before the clamp must hold every rounded value (int/int64/float; a narrower type wraps out-of-range codes before they can saturate). C18.4: no late binding of gv. Not decided: distribution-"
     "dependent behaviour.")
 EXPLANATION += (' Added after the audit wave: C18.3 the lag-differences of shortest_int are written in the form defined for every lag (sorted[lag:] - sorted[:len-lag]); `[:-lag]` is the empty slice for lag 0, i.e. for percent*len < 100.')
+EXPLANATION += (' Second audit wave: C18.1 an integer cast between rounding and the clamp needs the value saturated to [0, 2**n-1] in floating point first (a ratio beyond 2**63, inf or nan has no integer value).')
 TRUSTED = ["numpy.round/clip/sort/argmin semantics"]
 
 
@@ -230,6 +231,18 @@ def run(ctx):
                 ctx.check("C18.1", wide, fi, rets[0].node, f"ADC [{case}]: rounded code cast to {tname} before the clamp", "a wide signed type: out-of-range codes survive until they are clamped",
                           f"the rounded code is cast to {tname} before clip(0, 2**n-1): codes below 0 (and, for an 8-bit type, above 255) wrap around instead of saturating at the end codes")
                 raw = ra[2][0]
+                # a float beyond 2**63, an infinity or a nan has no integer value (the cast gives INT64_MIN, which the clamp then sends
+                # to code 0): the ratio (x-V_min)/(V_max-V_min) is unbounded for a far outlier and infinite for a range of zero width,
+                # so an INTEGER cast before the clamp needs the rounded value saturated in floating point first
+                if not any(k in tname for k in ("class float", "float64", "float32", "longdouble")):
+                    ria = raw.single_atom() if isinstance(raw, Form) else None
+                    pre = strip_clip(ria[2][0]) if ria and ria[0] == "fn" and ria[1] == "round" and ria[2] and isinstance(ria[2][0], Form) else strip_clip(raw)
+                    pre_ok = pre is not None and isinstance(pre[1], Form) and pre[1] == Form.num(0) and isinstance(pre[2], Form) and pre[2] == top
+                    ctx.check("C18.1", pre_ok, fi, rets[0].node, f"ADC [{case}]: value cast to {tname} is already saturated to [0, 2**n-1]", "clamped in floating point before the integer cast",
+                              f"an integer cast of the rounded ratio comes before any clamp (cast to {tname}): for a sample far above the range (ratio beyond 2**63) or a range of zero width (ratio inf / nan: a two-level "
+                              "signal whose rare level falls outside the 99.99% interval) the cast yields INT64_MIN and the clamp makes it code 0 - a sample ABOVE the range gets the LOWEST code")
+                    if pre_ok:
+                        raw = mk_fn("round", [pre[0]]) if ria and ria[0] == "fn" and ria[1] == "round" else pre[0]
             ctx.check("C18.2", isinstance(raw, Form) and raw == code_want, fi, rets[0].node, f"ADC [{case}]: code = {raw!r}"[:300], "round((x-V_min)/(V_max-V_min)*(2**n-1))",
                       f"quantiser map differs from {code_want!r}")
     it = Interp(pkg, param_classes={"input": "electrical_signal"}, assumptions={"input.noise": "none", "fs": None, "otype": "volts"}, no_inline=("shortest_int",))
